@@ -21,6 +21,8 @@ import (
 	gogotypes "github.com/cosmos/gogoproto/types"
 
 	oracletypes "mods.irisnet.org/modules/oracle/types"
+	svmodule "mods.irisnet.org/modules/service"
+	svkeeper "mods.irisnet.org/modules/service/keeper"
 	svtypes "mods.irisnet.org/modules/service/types"
 
 	"verif/internal/ev"
@@ -2167,6 +2169,57 @@ func svCoinsMapDelta(a, b map[string]sdk.Coins) map[string]map[string]*big.Int {
 
 // ---- end block (C07): charges, refunds, slashes ----
 
+// otherFeePoolWhatIf: the fee pool is a name given to the keeper when the application is wired; the application at hand
+// gives it the module's own collector account. On a dropped branch of the next height the module's end blocker runs with
+// a second keeper over the same store that was given another pool (the chain's general fee collector): whatever leaves
+// the deposit escrow there (slashes of expired requests) must arrive in that pool, and the module's own collector account
+// must not move.
+func (d *svDirector) otherFeePoolWhatIf() {
+	r, run := d.r, d.run
+	key := r.App.GetKey(svtypes.StoreKey)
+	if key == nil {
+		return
+	}
+	var k2 svkeeper.Keeper
+	func() {
+		defer func() { _ = recover() }()
+		k2 = svkeeper.NewKeeper(r.Cdc, key, r.App.AccountKeeper, r.App.BankKeeper, authtypes.FeeCollectorName, r.GovAddr.String())
+	}()
+	r.WhatIf(5*time.Second, func(ctx sdk.Context) {
+		base := r.K.Service.GetParams(ctx).BaseDenom
+		bal := func(a string) *big.Int {
+			return r.App.BankKeeper.GetBalance(ctx, sdk.MustAccAddressFromBech32(a), base).Amount.BigInt()
+		}
+		general := authtypes.NewModuleAddress(authtypes.FeeCollectorName).String()
+		dep0, own0, gen0 := bal(svDepositAcc), bal(svFeeCollAcc), bal(general)
+		aborted := ""
+		func() {
+			defer func() {
+				if rec := recover(); rec != nil {
+					aborted = fmt.Sprint(rec)
+				}
+			}()
+			svmodule.EndBlocker(ctx, k2)
+		}()
+		if aborted != "" {
+			run.Count("other-fee-pool-what-if-aborted", 1)
+			return
+		}
+		dep1, own1, gen1 := bal(svDepositAcc), bal(svFeeCollAcc), bal(general)
+		slashed := new(big.Int).Sub(dep0, dep1)
+		run.Eval(1)
+		if slashed.Sign() == 0 {
+			run.Count("other-fee-pool-what-if:nothing-slashed", 1)
+			return
+		}
+		run.Count("other-fee-pool-what-if:slash-observed", 1)
+		if got := new(big.Int).Sub(gen1, gen0); got.Cmp(slashed) != 0 || own1.Cmp(own0) != 0 {
+			run.Violation("C07:service:slash-does-not-reach-the-configured-fee-pool", map[string]any{"height": r.Height + 1, "slashed": slashed.String(), "configured_pool_gain": got.String(), "own_collector_gain": new(big.Int).Sub(own1, own0).String()},
+				"what-if at height %d with a keeper whose fee pool is %s: %s%s left the deposit escrow, the configured pool gained %s and the module's own collector account %s", r.Height+1, authtypes.FeeCollectorName, slashed, base, got, new(big.Int).Sub(own1, own0))
+		}
+	})
+}
+
 func (d *svDirector) c07EndBlock(br *rig.BlockRecord, pre, post *svSnap) {
 	run := d.run
 	H := br.Height
@@ -2895,8 +2948,12 @@ func (d *svDirector) observe(br *rig.BlockRecord) {
 	if d.c07() {
 		d.c07EndBlock(br, pe, qe)
 		d.invariants(qe, "after end block")
+		d.otherFeePoolWhatIf()
 	} else {
 		d.c08EndBlock(br, pe, qe)
+		// "consumer refunded" (and the provider's deposit slashed into the fee pool) at the expiration height is the C07
+		// end-block balance sheet: the same relations judge the C08 chains (their keys keep the C07 prefix)
+		d.c07EndBlock(br, pe, qe)
 		issues := serviceQueueCheck(d.r, d.r.Ctx())
 		run.Eval(1)
 		run.Count("queue-check", 1)
